@@ -32,8 +32,8 @@ let () =
           let l = List.map hex ws in
           let a = pt_of l 0 and b = pt_of l 1 and c = pt_of l 2 and d = pt_of l 3 in
           let ex = orient3d_exact a b c d in
-          let ad = orient3d_adaptive a b c d in
           let f = orient3d_filter a b c d in
+          let ad = adaptive_of f (fun () -> ex) in (* = orient3d_adaptive a b c d, without evaluating the determinant twice *)
           let ideal = sign_of (orient_mant orient_det a b c d) in
           let inr = pt_in_rangeb a && pt_in_rangeb b && pt_in_rangeb c && pt_in_rangeb d in
           let dec, fv = match f with Some s -> (1, z_to_int s) | None -> (0, 0) in
@@ -42,8 +42,8 @@ let () =
           let l = List.map hex ws in
           let a = pt_of l 0 and b = pt_of l 1 and c = pt_of l 2 and d = pt_of l 3 and e = pt_of l 4 in
           let ex = insphere_exact a b c d e in
-          let ad = insphere_adaptive a b c d e in
           let f = insphere_filter_dec a b c d e in
+          let ad = adaptive_of f (fun () -> ex) in (* = insphere_adaptive a b c d e *)
           let ideal = sign_of (insphere_mant insphere_det a b c d e) in
           let inr = pt_in_rangeb a && pt_in_rangeb b && pt_in_rangeb c && pt_in_rangeb d && pt_in_rangeb e in
           let dec, fv = match f with Some s -> (1, z_to_int s) | None -> (0, 0) in
